@@ -51,4 +51,7 @@ KeysQ == << 1, 2, 3, 4, 5, 6, 7, 8, 10, 16, 17,          \* nil true false 1 1.0
             26, 27,                                      \* [] ()
             31, 33, 34,                                  \* (true 2), [1], [true]
             41, 44, 51, 53 >>                            \* {:a 1}, record R, #{1}, #{true}
+(* thorough: more keys (positions in UT): the quick ones plus 1/2 0.5 0.5M, (1.0 2)-like near misses,   *)
+(* nested and two-entry collections                                                                   *)
+KeysT == KeysQ \o << 12, 13, 14, 28, 29, 30, 32, 35, 36, 37, 38, 42, 43, 45, 52, 55, 56, 57, 58, 59 >>
 =====================================================================================
